@@ -656,3 +656,73 @@ func ruleFragmentClassified(c *Ctx, rule string) {
 	}
 	c.R.Floor(rule, "pointer-or-anchor decisions guarding an anchor lookup", n, 1)
 }
+
+func init() {
+	for _, pid := range []string{"C12", "C08", "C05"} {
+		pid := pid
+		Properties[pid].Rules = append(Properties[pid].Rules, Rule{pid + "/const-decoded-like-instances", func(c *Ctx) { ruleConstDecodedPlainly(c, pid+"/const-decoded-like-instances") }})
+	}
+}
+
+// The value of `const` is decoded the way instances and `enum` values are: numbers become float64. A decoder with
+// UseNumber turns them into json.Number, whose exact decimal value (0.1 = 1/10) differs from the float64 the instance
+// 0.1 is decoded to, so {"const": 0.1} rejects 0.1 while {"enum": [0.1]} accepts it.
+func ruleConstDecodedPlainly(c *Ctx, rule string) {
+	n := 0
+	for _, fn := range c.Closure(rule, "UNM").Sorted() {
+		if !c.P.InPkg(fn) {
+			continue
+		}
+		core.EachInstr(fn, func(i ssa.Instruction) {
+			call, ok := i.(*ssa.Call)
+			if !ok {
+				return
+			}
+			target := ""
+			for _, a := range call.Call.Args {
+				for _, v := range append(backSlice(a, 8), a) {
+					if fa, ok := v.(*ssa.FieldAddr); ok {
+						if nm := c.fieldName(fa.X.Type(), fa.Field); nm == "Schema.Const" || nm == "Schema.Enum" {
+							target = nm
+						}
+					}
+				}
+			}
+			if target == "" {
+				return
+			}
+			// the functions the call can run
+			var callees []*ssa.Function
+			if sc := call.Call.StaticCallee(); sc != nil {
+				callees = append(callees, sc)
+			} else {
+				for _, src := range append(traceSources(call.Call.Value), call.Call.Value) {
+					switch f := src.(type) {
+					case *ssa.Function:
+						callees = append(callees, f)
+					case *ssa.MakeClosure:
+						callees = append(callees, f.Fn.(*ssa.Function))
+					}
+				}
+			}
+			n++
+			bad := ""
+			for _, callee := range callees {
+				if !c.P.InPkg(callee) {
+					continue
+				}
+				for f := range c.P.Closure("tmp", c.G, callee).Set {
+					for _, ff := range core.WithAnon(f) {
+						core.EachInstr(ff, func(j ssa.Instruction) {
+							if jc, ok := j.(ssa.CallInstruction); ok && core.CalleeKey(jc.Common()) == "encoding/json.Decoder.UseNumber" {
+								bad = c.pos(j)
+							}
+						})
+					}
+				}
+			}
+			c.R.Check(bad == "", rule, fmt.Sprintf("%s:%s#%d", core.FuncName(fn), target, n), c.pos(call), "the value is decoded without UseNumber, as instances are", "the value of "+target+" is decoded by a decoder with UseNumber (at "+bad+"): its numbers are json.Number while instances and enum values hold float64, and the exact comparison then tells 0.1 the decimal from 0.1 the float: {\"const\": 0.1} rejects the instance 0.1")
+		})
+	}
+	c.R.Floor(rule, "explicit decodings of const", n, 1)
+}
